@@ -133,7 +133,7 @@ package socket
 //@   requires msgOwnStatus(as(m, type(*message)))
 
 //@ func (*rawProto).Unpack
-//@   property C15 C12
+//@   property C15 C12 C06
 //@   requires msgOwnStatus(as(m, type(*message)))
 //@   requires[no-pending-refusal] @C12 !ghost.appendFailed
 //@   ensures[refusal-propagated] @C12 result == nil ==> !ghost.appendFailed
